@@ -827,4 +827,482 @@ Proof.
   eapply shrinks_slots; eauto.
 Qed.
 
+(* ------------------------------------------------------------------------------------------ *)
+(** * Group 6: map-level corollaries *)
+
+Lemma shrinks_cinv t a t' a' : shrinks t a t' a' -> count a = nentries t -> count a' = nentries t'.
+Proof. intros (_ & _ & C & _) H. lia. Qed.
+
+Theorem slots_nodup t a : slots_ok t a -> NoDup (ids t).
+Proof.
+  intros S. rewrite slots_ok_cnt in S. apply (NoDup_count_occ N.eq_dec). intros z.
+  specialize (S z). pose proof (NoDup_seqN (alen a)) as ND.
+  rewrite (NoDup_count_occ N.eq_dec) in ND. specialize (ND z). lia.
+Qed.
+
+Theorem slots_free_nodup t a : slots_ok t a -> NoDup (free a).
+Proof.
+  intros S. rewrite slots_ok_cnt in S. apply (NoDup_count_occ N.eq_dec). intros z.
+  specialize (S z). pose proof (NoDup_seqN (alen a)) as ND.
+  rewrite (NoDup_count_occ N.eq_dec) in ND. specialize (ND z). lia.
+Qed.
+
+Theorem slots_disjoint t a : slots_ok t a -> forall i, In i (ids t) -> ~ In i (free a).
+Proof.
+  intros S i H1 H2. rewrite slots_ok_cnt in S. specialize (S i).
+  pose proof (NoDup_seqN (alen a)) as ND.
+  rewrite (NoDup_count_occ N.eq_dec) in ND. specialize (ND i).
+  apply (count_occ_In N.eq_dec) in H1. apply (count_occ_In N.eq_dec) in H2. lia.
+Qed.
+
+(** every slot of the tree or of the free list is below the arena length, and conversely *)
+Theorem slots_range t a : slots_ok t a ->
+  forall i, (i < alen a)%N <-> In i (ids t) \/ In i (free a).
+Proof.
+  intros S i. rewrite <- in_seqN, <- in_app_iff. split; apply Permutation_in.
+  - apply Permutation_sym. exact S.
+  - exact S.
+Qed.
+
+Theorem alen_bounded m : minv m ->
+  (nnodes (root m) <= alen (al m))%N /\
+  (alen (al m) = nnodes (root m) + N.of_nat (length (free (al m))))%N.
+Proof. unfold minv, nnodes. intros S. apply slots_len in S. lia. Qed.
+
+Theorem minv_empty : minv empty.
+Proof. unfold minv, slots_ok. cbn. apply Permutation_refl. Qed.
+
+Theorem cinv_empty : cinv empty.
+Proof. reflexivity. Qed.
+
+(** ** [insert] *)
+
+Theorem insert_minv m q x : minv m -> minv (fst (insert m q x)).
+Proof.
+  unfold minv, Trie.insert. destruct (ins (root m) q x (al m)) as [[t o] a] eqn:H. cbn [fst root al].
+  eapply ins_slots_ok; eauto.
+Qed.
+
+Theorem insert_cinv m q x : cinv m -> cinv (fst (insert m q x)).
+Proof.
+  unfold cinv, Trie.insert. destruct (ins (root m) q x (al m)) as [[t o] a] eqn:H. cbn [fst root al].
+  pose proof (ins_count _ _ _ _ _ _ _ H). lia.
+Qed.
+
+Theorem insert_alen m q x : minv m ->
+  alen (al (fst (insert m q x))) = N.max (alen (al m)) (nnodes (root (fst (insert m q x)))).
+Proof.
+  unfold minv, Trie.insert. destruct (ins (root m) q x (al m)) as [[t o] a] eqn:H. cbn [fst root al].
+  eapply ins_alen_max; eauto.
+Qed.
+
+Theorem insert_alen_le m q x : (alen (al m) <= alen (al (fst (insert m q x))))%N.
+Proof.
+  unfold Trie.insert. destruct (ins (root m) q x (al m)) as [[t o] a] eqn:H. cbn [fst root al].
+  eapply ins_alen_le; eauto.
+Qed.
+
+(** ** [remove] *)
+
+Lemma remove_shrinks m q : shrinks (root m) (al m) (root (fst (remove m q))) (al (fst (remove m q))).
+Proof.
+  unfold Trie.remove. destruct (rem false (root m) q (al m)) as [[[t fl] o] a] eqn:H.
+  cbn [fst root al]. eapply rem_acct; eauto.
+Qed.
+
+Theorem remove_minv m q : minv m -> minv (fst (remove m q)).
+Proof. unfold minv. eapply shrinks_slots. apply remove_shrinks. Qed.
+
+Theorem remove_cinv m q : cinv m -> cinv (fst (remove m q)).
+Proof. unfold cinv. eapply shrinks_cinv. apply remove_shrinks. Qed.
+
+Theorem remove_alen m q : alen (al (fst (remove m q))) = alen (al m).
+Proof. apply (remove_shrinks m q). Qed.
+
+Theorem remove_nnodes m q : (nnodes (root (fst (remove m q))) <= nnodes (root m))%N.
+Proof. pose proof (remove_shrinks m q) as (_ & _ & _ & L). unfold nnodes. lia. Qed.
+
+(** the root is never unlinked *)
+Theorem remove_root m q : root m <> Leaf -> root (fst (remove m q)) <> Leaf.
+Proof.
+  unfold Trie.remove. destruct (rem false (root m) q (al m)) as [[[t fl] o] a] eqn:H.
+  cbn [fst root]. destruct (rem_acct _ _ _ _ _ _ _ _ H) as (_ & _ & C). apply C. reflexivity.
+Qed.
+
+(** ** [remove_keep_tree], [occ_remove], [occ_insert], [update_value] *)
+
+Lemma get_node_get t q : get t q = match get_node t q with Some (_, _, v) => v | None => None end.
+Proof. reflexivity. Qed.
+
+Lemma dec_if_free {A} (o : option A) a : free (dec_if o a) = free a.
+Proof. destruct o; reflexivity. Qed.
+Lemma dec_if_alen {A} (o : option A) a : alen (dec_if o a) = alen a.
+Proof. destruct o; reflexivity. Qed.
+Lemma dec_if_count {A} (o : option A) a : count (dec_if o a) = (count a - Z.of_nat (ownn o))%Z.
+Proof. destruct o; cbn [dec_if add_count count ownn]; lia. Qed.
+
+Lemma slots_ok_ext t a t' a' :
+  ids t' = ids t -> free a' = free a -> alen a' = alen a -> slots_ok t a -> slots_ok t' a'.
+Proof. unfold slots_ok. intros -> -> ->. exact (fun H => H). Qed.
+
+Theorem remove_keep_tree_minv m q : minv m -> minv (fst (remove_keep_tree m q)).
+Proof.
+  unfold minv, Trie.remove_keep_tree. cbn [fst root al]. apply slots_ok_ext.
+  - apply modify_ids.
+  - apply dec_if_free.
+  - apply dec_if_alen.
+Qed.
+
+(** taking the value out of the node reached: the counter and the entries move together *)
+Lemma take_value_count t q a :
+  (count (dec_if (get t q) a) - count a
+   = nentries (modify t q (fun p _ => (p, None))) - nentries t)%Z.
+Proof.
+  rewrite dec_if_count, get_node_get. unfold nentries.
+  pose proof (modify_entries t q (fun p _ => (p, None))) as M.
+  destruct (get_node t q) as [[[j pj] vj]|].
+  - cbn [snd ownn] in M. lia.
+  - rewrite M. cbn [ownn]. lia.
+Qed.
+
+Theorem remove_keep_tree_cinv m q : cinv m -> cinv (fst (remove_keep_tree m q)).
+Proof.
+  unfold cinv, Trie.remove_keep_tree. cbn [fst root al]. intros H.
+  pose proof (take_value_count (root m) q (al m)). lia.
+Qed.
+
+Theorem remove_keep_tree_alen m q : alen (al (fst (remove_keep_tree m q))) = alen (al m).
+Proof. unfold Trie.remove_keep_tree. cbn [fst al]. apply dec_if_alen. Qed.
+
+Theorem occ_remove_minv m q : minv m -> minv (fst (occ_remove m q)).
+Proof. exact (remove_keep_tree_minv m q). Qed.
+
+(** holds for every handle, occupied or not; with [get (root m) q = Some y] both the counter and
+    the number of entries drop by one ([occ_remove_len]) *)
+Theorem occ_remove_cinv m q : cinv m -> cinv (fst (occ_remove m q)).
+Proof. exact (remove_keep_tree_cinv m q). Qed.
+
+Theorem occ_remove_len m q y : get (root m) q = Some y ->
+  count (al (fst (occ_remove m q))) = (count (al m) - 1)%Z /\
+  nentries (root (fst (occ_remove m q))) = (nentries (root m) - 1)%Z.
+Proof.
+  intros G. unfold Trie.occ_remove. cbn [fst root al].
+  pose proof (take_value_count (root m) q (al m)) as T. rewrite G in *.
+  cbn [dec_if add_count count] in *. lia.
+Qed.
+
+Theorem occ_remove_alen m q : alen (al (fst (occ_remove m q))) = alen (al m).
+Proof. exact (remove_keep_tree_alen m q). Qed.
+
+Theorem occ_insert_minv m q x : minv m -> minv (fst (occ_insert m q x)).
+Proof.
+  unfold minv, Trie.occ_insert. cbn [fst root al]. apply slots_ok_ext; try reflexivity.
+  apply modify_ids.
+Qed.
+
+(** replacing an existing value leaves the number of entries unchanged.  The hypothesis is
+    needed: on a value-less node the write creates an entry but the counter is not touched. *)
+Theorem occ_insert_entries t q x : get t q <> None ->
+  nentries (modify t q (fun _ _ => (q, Some x))) = nentries t.
+Proof.
+  rewrite get_node_get. unfold nentries. intros G.
+  pose proof (modify_entries t q (fun _ _ => (q, Some x))) as M.
+  destruct (get_node t q) as [[[j pj] vj]|]; [|congruence].
+  destruct vj; [|congruence]. cbn [snd ownn] in M. lia.
+Qed.
+
+Theorem occ_insert_cinv m q x : get (root m) q <> None -> cinv m -> cinv (fst (occ_insert m q x)).
+Proof.
+  unfold cinv, Trie.occ_insert. cbn [fst root al]. intros G H.
+  rewrite occ_insert_entries; assumption.
+Qed.
+
+Theorem occ_insert_alen m q x : alen (al (fst (occ_insert m q x))) = alen (al m).
+Proof. reflexivity. Qed.
+
+Theorem update_value_minv m q g : minv m -> minv (update_value m q g).
+Proof.
+  unfold minv, Trie.update_value. cbn [root al]. apply slots_ok_ext; try reflexivity.
+  apply modify_ids.
+Qed.
+
+Theorem update_value_cinv m q g : cinv m -> cinv (update_value m q g).
+Proof.
+  unfold cinv, Trie.update_value, nentries. cbn [root al]. intros H.
+  pose proof (modify_entries (root m) q (fun p v => (p, option_map g v))) as M.
+  destruct (get_node (root m) q) as [[[j pj] vj]|].
+  - destruct vj; cbn [snd option_map ownn] in M; lia.
+  - rewrite M. exact H.
+Qed.
+
+Theorem update_value_alen m q g : alen (al (update_value m q g)) = alen (al m).
+Proof. reflexivity. Qed.
+
+(** ** [clear], [remove_children] *)
+
+Theorem clear_minv m : minv (clear m).
+Proof. exact minv_empty. Qed.
+
+Theorem clear_cinv m : cinv (clear m).
+Proof. exact cinv_empty. Qed.
+
+Theorem remove_children_minv m q : minv m -> minv (remove_children m q).
+Proof.
+  unfold Trie.remove_children. destruct (plen q =? 0)%N; [intros _; apply clear_minv|].
+  unfold minv. destruct (rc (root m) q (al m)) as [t a] eqn:H. cbn [root al].
+  eapply rc_slots_ok; eauto.
+Qed.
+
+Theorem remove_children_cinv m q : cinv m -> cinv (remove_children m q).
+Proof.
+  unfold Trie.remove_children. destruct (plen q =? 0)%N; [intros _; apply clear_cinv|].
+  unfold cinv. destruct (rc (root m) q (al m)) as [t a] eqn:H. cbn [root al].
+  eapply shrinks_cinv. eapply rc_acct; eauto.
+Qed.
+
+(** [clear] resets the arena to the single root slot; otherwise the length is untouched *)
+Theorem remove_children_alen m q :
+  alen (al (remove_children m q)) = if (plen q =? 0)%N then 1%N else alen (al m).
+Proof.
+  unfold Trie.remove_children. destruct (plen q =? 0)%N; [reflexivity|].
+  destruct (rc (root m) q (al m)) as [t a] eqn:H. cbn [root al].
+  apply (rc_acct _ _ _ _ _ H).
+Qed.
+
+(** ** [retain]: any predicate, any outcome *)
+
+Lemma retain_shrinks f m :
+  shrinks (root m) (al m) (root (fst (fst (retain f m)))) (al (fst (fst (retain f m)))).
+Proof.
+  unfold Trie.retain. destruct (ret f false (root m) (al m, [])) as [[t st] [a lg]] eqn:H.
+  cbn [fst root al]. apply (ret_acct _ _ _ _ _ _ _ H).
+Qed.
+
+Theorem retain_minv f m : minv m -> minv (fst (fst (retain f m))).
+Proof. unfold minv. eapply shrinks_slots. apply retain_shrinks. Qed.
+
+Theorem retain_cinv f m : cinv m -> cinv (fst (fst (retain f m))).
+Proof. unfold cinv. eapply shrinks_cinv. apply retain_shrinks. Qed.
+
+Theorem retain_alen f m : alen (al (fst (fst (retain f m)))) = alen (al m).
+Proof. apply (retain_shrinks f m). Qed.
+
+Theorem retain_root f m : root m <> Leaf -> root (fst (fst (retain f m))) <> Leaf.
+Proof.
+  unfold Trie.retain. destruct (ret f false (root m) (al m, [])) as [[t st] [a lg]] eqn:H.
+  cbn [fst root]. destruct (ret_acct _ _ _ _ _ _ _ H) as (_ & _ & C). apply C. reflexivity.
+Qed.
+
+(** ** [vacant_insert] *)
+
+Theorem vacant_insert_minv m q x : minv m -> minv (vacant_insert m q x).
+Proof.
+  unfold minv, Trie.vacant_insert. destruct (vins (root m) q x (al m)) as [t a] eqn:H.
+  cbn [root al]. eapply vins_slots_ok; eauto.
+Qed.
+
+Theorem vacant_insert_cinv m q x :
+  get (root m) q = None -> cinv m -> cinv (vacant_insert m q x).
+Proof.
+  unfold cinv, Trie.vacant_insert. destruct (vins (root m) q x (al m)) as [t a] eqn:H.
+  cbn [root al]. intros G C. pose proof (vins_count _ _ _ _ _ _ H G). lia.
+Qed.
+
+Theorem vacant_insert_alen m q x : minv m ->
+  alen (al (vacant_insert m q x)) = N.max (alen (al m)) (nnodes (root (vacant_insert m q x))).
+Proof.
+  unfold minv, Trie.vacant_insert. destruct (vins (root m) q x (al m)) as [t a] eqn:H.
+  cbn [root al]. eapply vins_alen_max; eauto.
+Qed.
+
+(** ** [from_list] *)
+
+Lemma fold_insert_inv (l : list (pfx * V)) : forall m, minv m -> cinv m ->
+  let m' := fold_left (fun m e => fst (insert m (fst e) (snd e))) l m in minv m' /\ cinv m'.
+Proof.
+  induction l as [|e l IH]; intros m M C; cbn [fold_left].
+  - split; assumption.
+  - apply IH; [apply insert_minv|apply insert_cinv]; assumption.
+Qed.
+
+Theorem from_list_minv l : minv (from_list l).
+Proof. apply (fold_insert_inv l empty minv_empty cinv_empty). Qed.
+
+Theorem from_list_cinv l : cinv (from_list l).
+Proof. apply (fold_insert_inv l empty minv_empty cinv_empty). Qed.
+
+(* ------------------------------------------------------------------------------------------ *)
+(** * Group 7: churn — freed slots are reused before the arena grows *)
+
+Theorem reuse_before_grow m q x : minv m ->
+  let m' := fst (insert m q x) in
+  (nnodes (root m') <= alen (al m))%N -> alen (al m') = alen (al m).
+Proof. intros M m' H. subst m'. rewrite insert_alen by exact M. lia. Qed.
+
+(** in particular: an insertion with a non-empty free list that needs one slot (every placement
+    but NewBranch), or with two free slots, never grows the arena *)
+Theorem reuse_free_slots m q x : minv m ->
+  let m' := fst (insert m q x) in
+  (nnodes (root m') <= nnodes (root m) + N.of_nat (length (free (al m))))%N ->
+  alen (al m') = alen (al m).
+Proof.
+  intros M m' H. apply reuse_before_grow; [exact M|].
+  destruct (alen_bounded m M) as [_ E]. fold m'. lia.
+Qed.
+
+Theorem clear_alen m : alen (al (clear m)) = 1%N.
+Proof. reflexivity. Qed.
+
+(** ** Churn: over any sequence of insertions and removals the arena length is exactly the
+    high-water mark of the number of live nodes *)
+
+Inductive op :=
+| OIns (q : pfx) (x : V)
+| ORem (q : pfx)
+| ORemKeep (q : pfx)
+| ORetain (f : nat -> pfx -> V -> option bool).
+
+Definition step (o : op) (m : pmap) : pmap :=
+  match o with
+  | OIns q x => fst (insert m q x)
+  | ORem q => fst (remove m q)
+  | ORemKeep q => fst (remove_keep_tree m q)
+  | ORetain f => fst (fst (retain f m))
+  end.
+
+Fixpoint run_ops (ops : list op) (m : pmap) : pmap :=
+  match ops with [] => m | o :: ops' => run_ops ops' (step o m) end.
+
+(** the largest number of nodes of any state visited *)
+Fixpoint peak (ops : list op) (m : pmap) : N :=
+  match ops with
+  | [] => nnodes (root m)
+  | o :: ops' => N.max (nnodes (root m)) (peak ops' (step o m))
+  end.
+
+Lemma step_minv o m : minv m -> minv (step o m).
+Proof.
+  destruct o; cbn [step].
+  - apply insert_minv.
+  - apply remove_minv.
+  - apply remove_keep_tree_minv.
+  - apply retain_minv.
+Qed.
+
+Lemma step_cinv o m : cinv m -> cinv (step o m).
+Proof.
+  destruct o; cbn [step].
+  - apply insert_cinv.
+  - apply remove_cinv.
+  - apply remove_keep_tree_cinv.
+  - apply retain_cinv.
+Qed.
+
+Lemma peak_ge ops m : (nnodes (root m) <= peak ops m)%N.
+Proof. destruct ops; cbn [peak]; lia. Qed.
+
+Theorem run_ops_inv ops : forall m, minv m -> cinv m -> minv (run_ops ops m) /\ cinv (run_ops ops m).
+Proof.
+  induction ops as [|o ops IH]; intros m M C; cbn [run_ops].
+  - split; assumption.
+  - apply IH; [apply step_minv|apply step_cinv]; assumption.
+Qed.
+
+Theorem churn_high_water ops : forall m, minv m ->
+  alen (al (run_ops ops m)) = N.max (alen (al m)) (peak ops m).
+Proof.
+  induction ops as [|o ops IH]; intros m M; cbn [run_ops peak].
+  - destruct (alen_bounded m M) as [B _]. lia.
+  - rewrite (IH _ (step_minv o m M)).
+    destruct (alen_bounded m M) as [B _].
+    pose proof (peak_ge ops (step o m)) as P.
+    assert (E : alen (al (step o m)) = alen (al m) \/
+                alen (al (step o m)) = N.max (alen (al m)) (nnodes (root (step o m)))).
+    { destruct o; cbn [step].
+      - right. apply insert_alen. exact M.
+      - left. apply remove_alen.
+      - left. apply remove_keep_tree_alen.
+      - left. apply retain_alen. }
+    destruct E as [E|E]; rewrite E; lia.
+Qed.
+
+Corollary churn_from_empty ops : alen (al (run_ops ops empty)) = peak ops empty.
+Proof.
+  rewrite (churn_high_water ops empty minv_empty).
+  pose proof (peak_ge ops empty) as P. cbn in P |- *. lia.
+Qed.
+
 End SL.
+
+Print Assumptions ins_slots_ok.
+Print Assumptions ins_count.
+Print Assumptions ins_alen_max.
+Print Assumptions ins_alen_le.
+Print Assumptions vins_slots_ok.
+Print Assumptions vins_count.
+Print Assumptions vins_alen_max.
+Print Assumptions vins_alen_le.
+Print Assumptions modify_ids.
+Print Assumptions modify_entries.
+Print Assumptions write_ids_ids.
+Print Assumptions write_ids_entries.
+Print Assumptions subst_ids.
+Print Assumptions remove_self_storage.
+Print Assumptions absorb_storage.
+Print Assumptions rem_storage.
+Print Assumptions rem_slots_ok.
+Print Assumptions free_all_storage.
+Print Assumptions rc_storage.
+Print Assumptions rc_slots_ok.
+Print Assumptions ret_storage.
+Print Assumptions ret_slots_ok.
+Print Assumptions slots_nodup.
+Print Assumptions slots_free_nodup.
+Print Assumptions slots_disjoint.
+Print Assumptions slots_range.
+Print Assumptions alen_bounded.
+Print Assumptions minv_empty.
+Print Assumptions cinv_empty.
+Print Assumptions insert_minv.
+Print Assumptions insert_cinv.
+Print Assumptions insert_alen.
+Print Assumptions insert_alen_le.
+Print Assumptions remove_minv.
+Print Assumptions remove_cinv.
+Print Assumptions remove_alen.
+Print Assumptions remove_nnodes.
+Print Assumptions remove_root.
+Print Assumptions remove_keep_tree_minv.
+Print Assumptions remove_keep_tree_cinv.
+Print Assumptions remove_keep_tree_alen.
+Print Assumptions occ_remove_minv.
+Print Assumptions occ_remove_cinv.
+Print Assumptions occ_remove_len.
+Print Assumptions occ_remove_alen.
+Print Assumptions occ_insert_minv.
+Print Assumptions occ_insert_entries.
+Print Assumptions occ_insert_cinv.
+Print Assumptions occ_insert_alen.
+Print Assumptions update_value_minv.
+Print Assumptions update_value_cinv.
+Print Assumptions update_value_alen.
+Print Assumptions clear_minv.
+Print Assumptions clear_cinv.
+Print Assumptions remove_children_minv.
+Print Assumptions remove_children_cinv.
+Print Assumptions remove_children_alen.
+Print Assumptions retain_minv.
+Print Assumptions retain_cinv.
+Print Assumptions retain_alen.
+Print Assumptions retain_root.
+Print Assumptions vacant_insert_minv.
+Print Assumptions vacant_insert_cinv.
+Print Assumptions vacant_insert_alen.
+Print Assumptions from_list_minv.
+Print Assumptions from_list_cinv.
+Print Assumptions reuse_before_grow.
+Print Assumptions reuse_free_slots.
+Print Assumptions clear_alen.
+Print Assumptions run_ops_inv.
+Print Assumptions churn_high_water.
+Print Assumptions churn_from_empty.
